@@ -60,8 +60,10 @@ var targetSizes = []int{0, 1, 2, 3, 4, 5, 7, 8, 9, 15, 16, 17, 31, 32, 33, 62, 6
 func genCodecCase(t *rapid.T) codecCase {
 	c := codecCase{Seed: rapid.Uint64().Draw(t, "seed"), Rep: rapid.SampledFrom(repNames).Draw(t, "rep"), Extra: [][2]int{}}
 	switch rapid.IntRange(0, 9).Draw(t, "sizekind") {
-	case 0, 1, 2, 3:
+	case 0, 1, 2:
 		c.N = rapid.IntRange(0, 12).Draw(t, "n")
+	case 3:
+		c.N = rapid.IntRange(0, 130).Draw(t, "anyn") // every size up to beyond the one-byte size field
 	case 9:
 		c.N = rapid.SampledFrom([]int{128, 200, 300}).Draw(t, "bign")
 		if !Thorough {
@@ -801,6 +803,38 @@ func init() {
 	RegisterRapid("C07_codecs",
 		"rapid: graph = (n, hash-defined edge set of density 0,1/8,1/2,1 from a seed, up to 3 toggled edges biased to vertex n-2, optionally vertex n-1 isolated) with n from 0..12 or the targets {0,1,2,3,4,5,7,8,9,15,16,17,31,32,33,62,63,64,65,100,128(,200,300)}, input held as dense / sparse / views. graph6: Graph6Encode equals the reference encoder byte for byte, only bytes 63..126, Graph6Decode returns the graph with and without '>>graph6<<'. sparse6: the output is decoded by a literal transcription of the format definition that keeps loops and repeats (none allowed, result must be the graph), equals nauty's ntos6 transcription (both padding rules), and Sparse6Decode returns the graph with and without header. Multicode: equals the reference, decodes to the graph. Non-trivial: n >= 2 with an edge.",
 		Budget{Checks: 2500, Shards: 1}, Budget{Checks: 30000, Shards: 16}, genCodecCase, checkCodecCase)
+	RegisterEnum("C07_every_order",
+		"enumeration: for EVERY n in 0..130 (thorough 0..300) five graphs (edgeless, one edge, path, hash-random of density 1/2, complete) from dense and sparse inputs through graph6, sparse6 and Multicode; same checks as C07_codecs. Complete over n for that range.",
+		true, Budget{Shards: 1}, Budget{Shards: 8},
+		func(yield func(codecCase) bool) {
+			idx := 0
+			for n := 0; n <= sz(130, 300); n++ {
+				for kind := 0; kind < 5; kind++ {
+					idx++
+					if idx%NShards != Shard {
+						continue
+					}
+					c := codecCase{N: n, Seed: uint64(n)*7 + Seed, Extra: [][2]int{}, Rep: []string{"dense", "sparse"}[(n+kind)%2]}
+					switch kind {
+					case 1:
+						if n >= 2 {
+							c.Extra = [][2]int{{0, n - 1}}
+						}
+					case 2:
+						for i := 0; i+1 < n; i++ {
+							c.Extra = append(c.Extra, [2]int{i, i + 1})
+						}
+					case 3:
+						c.Dens = 4
+					case 4:
+						c.Dens = 8
+					}
+					if !yield(c) {
+						return
+					}
+				}
+			}
+		}, checkCodecCase)
 	RegisterEnum("C07_all_labelled_small",
 		"enumeration: EVERY labelled graph on n <= 5 (quick; 1+1+2+8+64+1024 = 1100 graphs) / n <= 6 (thorough; +32768) vertices through graph6, sparse6 and Multicode from the dense and sparse representations; same checks as C07_codecs. Complete for that range.",
 		true, Budget{Shards: 1}, Budget{Shards: 8}, func(y func(labelledCase) bool) { enumLabelled(sz(5, 6))(y) }, checkLabelledCodecs)
